@@ -359,6 +359,81 @@ def c14_sparse_dense(cfg):
     return rec
 
 
+def c14_sparse_vectors(cfg):
+    """subspace_eigenvectors given as scipy.sparse matrices (real / complex) == the same vectors given densely == rotating first
+    (numeric: sparse containers cannot carry symbolic payloads; exactly representable inputs, enumerated bases)."""
+    import warnings
+
+    from pymablock import block_diagonalize, operator_to_BlockSeries
+    from pymablock.series import one, zero
+    from scipy import sparse
+
+    rec = Rec("C14", cfg)
+    herm = cfg.get("hermitian", True)
+    n = 4
+    E = np.array([-2.0, -1.0, 1.5, 3.0])
+    rng = np.random.default_rng(5)
+    H1 = rng.integers(-3, 4, (n, n)) + 1j * rng.integers(-3, 4, (n, n))
+    H1 = (H1 + H1.conj().T) if herm else H1
+    bases = {
+        "identity": np.eye(n, dtype=complex),
+        "phases": np.diag([1, 1j, 1, -1j]).astype(complex),
+        "perm_phases": np.diag([1j, 1, -1, 1j]).astype(complex)[:, [2, 0, 3, 1]],
+        "complex_pair": np.block([[np.array([[1 + 1j, 1 - 1j], [1 - 1j, 1 + 1j]]) / 2, np.zeros((2, 2))], [np.zeros((2, 2)), np.eye(2)]]),
+        "hadamard": np.array([[1, 1, 1, 1], [1, 1, -1, -1], [1, -1, 1, -1], [1, -1, -1, 1]], dtype=complex) / 2,
+    }
+    splits = [[2, 2], [1, 3], [1, 1, 2]]
+    first = None
+    cases = 0
+    with warnings.catch_warnings():
+        warnings.simplefilter("ignore")
+        for bname, Q in bases.items():
+            H0 = (Q * E) @ Q.conj().T
+            for sizes in splits:
+                off = np.cumsum([0] + sizes)
+                dense_vecs = [Q[:, off[b] : off[b + 1]] for b in range(len(sizes))]
+                ref = block_diagonalize([H0, H1.astype(complex)], subspace_eigenvectors=dense_vecs, hermitian=herm)
+                for fmt in ("csr", "csc", "coo"):
+                    conv = {"csr": sparse.csr_array, "csc": sparse.csc_array, "coo": sparse.coo_array}[fmt]
+                    sv = [conv(v) for v in dense_vecs]
+                    cases += 1
+                    try:
+                        out = block_diagonalize([H0, H1.astype(complex)], subspace_eigenvectors=sv, hermitian=herm)
+                        blocks = operator_to_BlockSeries([H0, H1.astype(complex)], subspace_eigenvectors=sv, hermitian=herm)
+                    except Exception as e:
+                        first = first or {"basis": bname, "sizes": sizes, "format": fmt, "raised": f"{type(e).__name__}: {e}"[:200]}
+                        continue
+                    for w in range(3):
+                        for o in range(3):
+                            for i in range(len(sizes)):
+                                for j in range(len(sizes)):
+                                    def dn(v, di, dj):
+                                        if v is zero:
+                                            return np.zeros((di, dj), dtype=complex)
+                                        if v is one:
+                                            return np.eye(di, dtype=complex)
+                                        return np.asarray(v.toarray() if hasattr(v, "toarray") else v, dtype=complex)
+                                    a = dn(ref[w][(i, j, o)], sizes[i], sizes[j])
+                                    b = dn(out[w][(i, j, o)], sizes[i], sizes[j])
+                                    if np.max(np.abs(a - b), initial=0) > 1e-9 * max(1.0, np.max(np.abs(a), initial=0)):
+                                        first = first or {"basis": bname, "sizes": sizes, "format": fmt, "element": [NAMES[w], i, j, o], "max_abs_error": float(np.max(np.abs(a - b)))}
+                    for i in range(len(sizes)):
+                        for j in range(len(sizes)):
+                            v = blocks[(i, j, 1)]
+                            v = np.zeros((sizes[i], sizes[j])) if v is zero else np.asarray(v.toarray() if hasattr(v, "toarray") else v)
+                            want = dense_vecs[i].conj().T @ H1 @ dense_vecs[j]
+                            if np.max(np.abs(v - want), initial=0) > 1e-9:
+                                first = first or {"basis": bname, "sizes": sizes, "format": fmt, "operator_to_BlockSeries_block": [i, j], "max_abs_error": float(np.max(np.abs(v - want)))}
+    if first:
+        rec.direct_violation(f"sparse eigenvector matrices differ from dense ones: {first}", f"sparse-eigenvectors:herm={herm}:basis={first['basis']}", dict(first, cases=cases))
+    else:
+        rec.discharged(f"{cases} (basis, split, sparse format) cases: sparse eigenvector matrices give the dense results and L^dagger A R blocks", "confirmed")
+    rec.obligations[-1]["cases"] = cases
+    rec.nontrivial = True
+    rec.sample = {"config": cfg, "cases": cases}
+    return rec
+
+
 def configs(tier):
     from ..configs import RAT_SPECTRA, RAT_SPECTRA_ALT
 
@@ -392,6 +467,7 @@ def configs(tier):
             cfgs.append(dict(hermitian=herm, sizes=[3], spectrum=RAT_SPECTRA[3], terms=[[1]], max_order=2, format=fmt, fd={"0": [[0, 1, 0], [1, 0, 0], [0, 0, 0]]}))
     jobs = [("vf.props.formats", "c14", c) for c in cfgs]
     for herm in (True, False):
+        jobs.append(("vf.props.formats", "c14_sparse_vectors", dict(sparse_vectors=True, hermitian=herm)))
         for N, nbl in ((2, 2), (3, 2), (3, 3)) + (((4, 2),) if tier == "thorough" else ()):
             jobs.append(("vf.props.formats", "c14_sparse_dense", dict(sparse_dense=True, N=N, nblocks=nbl, hermitian=herm, max_order=3)))
     for kind in ("real", "complex", "biorthogonal"):
